@@ -298,11 +298,11 @@ def P(detector, **kw) -> None:  # noqa: N802 - referenced from YAML as pyxsim.pr
 
     # in-place mutation of own arguments (a misbehaving but legal user model)
     if kw.get("mutate"):
-        vec = kw.get("vec")
-        if isinstance(vec, list):
-            vec.append(99.0)
-        elif isinstance(vec, np.ndarray):
-            vec += 1.0
+        mvec = kw.get("mvec")
+        if isinstance(mvec, list):
+            mvec.append(99.0)
+        elif isinstance(mvec, np.ndarray):
+            mvec += 1.0
         extra = kw.get("extra")
         if isinstance(extra, dict):
             extra["touched"] = extra.get("touched", 0) + 1
